@@ -59,6 +59,10 @@ def log(*a):
 OVERLAYS = {
     # package dir (relative to the repository) -> list of harness files added to it
     "internal/pfcp": ["pfcp/zz_verif_l1_test.go"],
+    "internal/gtpv1": ["gtpv1/zz_verif_gtpu_test.go"],
+    "internal/report": ["report/zz_verif_flags_test.go"],
+    "internal/forwarder": ["forwarder/zz_verif_fwd_test.go"],
+    "pkg/factory": ["factory/zz_verif_cfg_test.go"],
 }
 
 
@@ -108,6 +112,55 @@ def run_l1(binary, scripts, k, name, timeout=1200):
         rc, outtxt = -9, (ex.stdout or b"").decode("utf8", "replace") if isinstance(ex.stdout, bytes) else (ex.stdout or "")
     info = {"rc": rc, "wall": time.time() - t0, "tail": outtxt[-3000:], "in": fin, "out": fout}
     return fout, info
+
+
+def run_l0(binary, testname, inputs, name, timeout=1200, env_extra=None):
+    """Run a function-level executor (child process) on ND-JSON inputs; returns (out_path, info)."""
+    d = sub("l0")
+    fin = os.path.join(d, name + ".in.ndjson")
+    fout = os.path.join(d, name + ".out.ndjson")
+    with open(fin, "w") as fh:
+        for s in inputs:
+            fh.write(json.dumps(s, separators=(",", ":")) + "\n")
+    env = dict(os.environ, VERIF_IN=fin, VERIF_OUT=fout)
+    env.update(env_extra or {})
+    t0 = time.time()
+    p = subprocess.run([binary, "-test.run", "^%s$" % testname, "-test.timeout", "%ds" % timeout], cwd=d, env=env,
+                       stdout=subprocess.PIPE, stderr=subprocess.STDOUT, text=True, timeout=timeout + 30)
+    return fout, {"rc": p.returncode, "wall": time.time() - t0, "tail": p.stdout[-3000:]}
+
+
+def tlc_vectors(tla, cfg, modules, name, tag="VEC", timeout=1800, workers=None, cfg_text=None):
+    """Run TLC on a configuration whose states are printed as <<tag, json>>; returns (vectors, stats)."""
+    d = stage_spec(list(modules) + [tla] + ([cfg] if cfg_text is None else []), "vec-" + name)
+    if cfg_text is not None:
+        with open(os.path.join(d, cfg), "w") as fh:
+            fh.write(cfg_text)
+    cmd = ["tlc", "-workers", str(workers or NCPU), "-metadir", os.path.join(d, "md"), "-config", cfg, tla]
+    rx = re.compile(r'^<<"%s", "(.*)">>$' % tag)
+    vecs, tail = [], []
+    t0 = time.time()
+    p = subprocess.Popen(cmd, cwd=d, env=_tlc_env(), stdout=subprocess.PIPE, stderr=subprocess.STDOUT, text=True)
+    for ln in p.stdout:
+        ln = ln.rstrip("\n")
+        m = rx.match(ln)
+        if m:
+            try:
+                vecs.append(json.loads(json.loads('"' + m.group(1) + '"')))
+            except ValueError:
+                pass
+            continue
+        tail.append(ln)
+        tail = tail[-300:]
+        if time.time() - t0 > timeout:
+            p.kill()
+            raise Infra("TLC timed out on %s" % tla)
+    p.wait()
+    out = "\n".join(tail)
+    m = re.search(r"(\d+) states generated, (\d+) distinct states found", out)
+    if p.returncode != 0 or "No error has been found" not in out or not m:
+        raise Infra("TLC failed on %s (the reference itself violates its invariants?):\n%s" % (tla, out[-3000:]))
+    return vecs, {"generated": int(m.group(1)), "distinct": int(m.group(2)), "wall": time.time() - t0}
 
 
 def run_l1_parallel(binary, scripts, kbase, name, workers=None):
